@@ -277,7 +277,38 @@ def extra_c0607(pid):
                 assumptions=COMMON_ASSUME)
 
 
+def integrity_check(tier, seed, stats):
+    import subprocess, os
+    from vlib import HARNESS, ENV
+    rounds = "40" if tier == "quick" else "1500"
+    p = subprocess.run([os.path.join(HARNESS, "target", "release", "integrity"), str(seed), rounds],
+                       stdout=subprocess.PIPE, stderr=subprocess.STDOUT, text=True, env=ENV, timeout=3000)
+    lines = p.stdout.strip().split("\n")
+    types = [l for l in lines if l.startswith("type ")]
+    stats["evaluations"] += len(types) * int(rounds) * 20
+    stats["programs"] += len(types)
+    stats["samples"].append({"integrity": types[:4] + types[-2:]})
+    if p.returncode != 0 or not lines or lines[-1] != "INTEGRITY ok":
+        return [{"kind": "integrity", "seed": seed, "failures": [l for l in lines if "FAIL" in l][:6] or [f"integrity exited {p.returncode}: {lines[-3:]}"]}]
+    return []
+
+
 PROPS = {
+    "C04": dict(
+        level="proof",
+        lean_targets=["Kanal.Props.C04", "Kanal.Tie"],
+        props_files=["Kanal/Props/C04.lean", "Kanal/Tie.lean"],
+        leancheck=["Kanal.Props.C04", "Kanal.PtrM"],
+        families=lambda tier, seed: ([Family("classes3", "exh", "SYRVDABo", "0,1", depth=3, configs=("z:s", "b:a", "w:s", "l:a"))] if tier == "quick" else
+                                     [Family("classes4", "exh", "SYRVDABo", "0,1,2", depth=4, configs=ALLCFG)]),
+        conc=conc_prof("payload", MIXED, ["ptr", "stuck"], oracles=("ledger", "lifetime")),
+        extra_checks=[integrity_check],
+        relevant=rel_tokens(r"\bv\d+|drained \d+ \[[\d,]*\]|panic"),
+        trusted=["rustc lays T out in size_of::<T>() bytes and ptr::read/write/copy move exactly those bytes (Rust semantics)",
+                 "harness integrity runs / ptr hook events"],
+        assumptions=COMMON_ASSUME + ["alignment is not modelled (no role in the copy logic); over-aligned and padded types are covered by the integrity runs on the real crate"],
+        explanation="byte-level model of KanalPtr with every size test taken from the extractor: each transfer path returns exactly the bytes sent for every pointer size P>0 and every size n (zst/smaller/equal/larger), nothing uninitialised; zst touches nothing; proved failure with >= ; ptr hook events of scheduled runs checked against the model's branch; integrity runs over 15 concrete types x all paths x sync/timed/async",
+    ),
     "C06": dict(extra_c0607("C06"),
                 families=lambda tier, seed: [Family("pending5", "exh", "PQyvdc", "0,1", depth=5, configs=("w:s", "l:a"))] if tier == "quick" else
                                             [Family("pending7", "exh", "PQyvdc", "0,1,2", depth=7, configs=("w:s", "l:a"))],
